@@ -9,7 +9,6 @@ package sm4
 // sequence of (instruction address, effective addresses of memory operands).
 
 import (
-	"strings"
 	"encoding/hex"
 	"encoding/json"
 	"fmt"
@@ -17,6 +16,7 @@ import (
 	"os/exec"
 	"path/filepath"
 	"runtime"
+	"strings"
 	"testing"
 
 	"pgregory.net/rapid"
@@ -380,11 +380,11 @@ func TestVerif_C09_Trace(t *testing.T) {
 				What                  string
 			} `json:"mismatch"`
 		} `json:"groups"`
-		Calls, Steps    int
-		PlanEntries     int      `json:"plan_entries"`
-		ChildExit       int      `json:"child_exit"`
-		VectorIndexed   []string `json:"vector_indexed_operands"`
-		Suppressed      int      `json:"signals_suppressed_while_stepping"`
+		Calls, Steps  int
+		PlanEntries   int      `json:"plan_entries"`
+		ChildExit     int      `json:"child_exit"`
+		VectorIndexed []string `json:"vector_indexed_operands"`
+		Suppressed    int      `json:"signals_suppressed_while_stepping"`
 	}
 	if err := json.Unmarshal(rb, &res); err != nil {
 		t.Skipf("HARNESS-INCONCLUSIVE: bad tracer output: %v", err)
